@@ -209,7 +209,10 @@ func init() {
 		}
 		refs := []*term{mkRef("", "a"), mkRef("", "b"), mkRef("d", "a"), mkRef("e", "a"), mkRef("d", "b"), mkRef("", "MIT"), mkRef("", "GPL-2.0"),
 			// user-defined names are matched exactly: the same names in another letter case are different terms
-			mkRef("", "A"), mkRef("D", "a"), mkRef("", "acme-eula"), mkRef("", "ACME-EULA"), mkRef("vendor", "acme-eula"), mkRef("Vendor", "acme-eula"), mkRef("", "mit"), mkRef("", "gpl-2.0")}
+			mkRef("", "A"), mkRef("D", "a"), mkRef("", "acme-eula"), mkRef("", "ACME-EULA"), mkRef("vendor", "acme-eula"), mkRef("Vendor", "acme-eula"), mkRef("", "mit"), mkRef("", "gpl-2.0"),
+			// operator words as whole segments of a name, in two letter cases (passes that re-case operators in the text)
+			mkRef("", "MIT-or-Apache"), mkRef("", "MIT-Or-Apache"), mkRef("", "MIT-OR-Apache"), mkRef("", "a-and-b"), mkRef("", "a-AND-b"), mkRef("", "x.with.y"), mkRef("", "x.WITH.y"),
+			mkRef("acme-or-sub", "x1"), mkRef("acme-OR-sub", "x1")}
 		terms = append(terms, refs...)
 		countN("terms", len(terms))
 		// within-family pairs exhaustively, others sampled
@@ -309,6 +312,30 @@ func init() {
 			}
 			if len(corrQ) > 50000 {
 				flushCorr()
+			}
+		}
+		// ids ADJACENT in the order of the lists, one of them WITH the first / the last exception of the exception list (terms
+		// packed into integer keys with a radix that is off by one collide exactly there)
+		{
+			order := append(append([]string{}, tblActive...), tblDeprecated...)
+			for i := 0; i+1 < len(order); i++ {
+				a, b := strings.TrimSuffix(order[i], "+"), strings.TrimSuffix(order[i+1], "+")
+				for _, e := range []string{tblExceptions[0], tblExceptions[len(tblExceptions)-1]} {
+					for _, pl := range []bool{false, true} {
+						for _, pr := range [][2]*term{{mkTerm(a, "", pl, e, -1), mkTerm(b, "", pl, "", -1)}, {mkTerm(b, "", pl, e, -1), mkTerm(a, "", pl, "", -1)}} {
+							if !implValid(pr[0].text) || !implValid(pr[1].text) {
+								continue
+							}
+							if fl := c02Pair(pr[0], pr[1], true); fl != nil {
+								fail(*fl)
+							}
+							count("adjacent_ids_end_exceptions")
+						}
+					}
+				}
+				if len(corrQ) > 50000 {
+					flushCorr()
+				}
 			}
 		}
 		// ids that LOOK related without being so (or that are related outside the version table): all listed ids with the same
